@@ -48,7 +48,7 @@ CLAIMED = {
     "C13": (PBT + "; oracle: per-system setup / dispose counters, custom-handler call log, world contents before / after each setup",
         "Generated plans with nested batches, thread-locals and 13 static SystemData shapes x pre-existing resource subsets x setup/insert/remove histories, then dispose. Found and fixed one defect (dispose not forwarded into batches).",
         "Controllers have no setup hook of their own: their declared data is observed through created resources and the custom handler log.", "DESIGN.md 4/C13"),
-    "C14": ("fault enumeration over generated small plans: every system x fault point {before fetch, in run, after release} x {parallel, sequential} x sibling phase forced by the harness-owned schedule; pairs of one stage",
+    "C14": ("fault enumeration over generated small plans: every system x fault point {before fetch, in run, after release} x {parallel, sequential} x sibling phase forced by the harness-owned schedule; pairs of one stage; panics caught by a batch controller around its inner dispatch",
         "Per generated plan (five classes: general, pairs, dependents packed into one group, wide stages on pools smaller and larger than the stage, nested batches with MultiDispatcher / custom controllers and thread-local systems inside, faults also in later inner dispatches) the fault space is enumerated completely; oracle: payload of an armed system reaches the caller, no counter above its bound, no transitive dependent ran, all cells free, the next two dispatches run everything exactly once.",
         "The async dispatcher is excluded (a panicking spawned job aborts the process by rayon's default handler).", "DESIGN.md 4/C14"),
     "C15": ("model-based property testing: generated call histories on the async dispatcher with systems held inside run / pool workers occupied by the harness; oracles on counters at every return, on running(), and on the event history",
@@ -57,7 +57,7 @@ CLAIMED = {
     "C16": (PBT + " over generated trees of the real Par / Seq node types (boxing adapter); oracle: exactly-once, seq order from the event history, union of declarations, setup counters; planted-conflict rejection trees",
         "Trees of depth <= 5, fan-out <= 6, pools 1..16, dispatch from outside and inside the pool, inherent API and RunNow impl; runnable trees and trees with exactly one planted conflict (Par::with must panic exactly there); plus statically typed trees of zero-sized systems written with the real par!/seq! macros.",
         "'May overlap' is a permission and is not asserted. Debug assertions are on in the harness profile.", "DESIGN.md 4/C16"),
-    "C17": ("model-based property testing: generated register / insert / remove / get / iterate histories over 7 implementing types (incl. a wrong CastFrom) against a reference list in first-registration order",
+    "C17": ("model-based property testing: generated register / insert / remove / get / iterate histories over 8 hand-written implementing types (incl. two with a wrong CastFrom) and 64 const-generic ones (tables beyond 32 and 64 types) against a reference list in first-registration order",
         "20 implementing types (incl. zero-sized, over-aligned, two with a wrong CastFrom of which one is zero-sized); every type's methods read its own payload so a wrong vtable shows as a wrong tag (or a crash that the journal attributes); iteration through for / nth / skip / step_by, also while foreign guards are held; tables with more than 16 distinct registrations; one table and world shared read-only by 2..8 threads that repeat generated lookup scripts (every result has the sequential oracle).",
         "A process crash while a journalled case runs is reported as a violation with that case.", "DESIGN.md 4/C17"),
     "C18": (PBT + "; generated ill-formed call planted at a generated position; oracle = panic exactly there, quoting the name, nowhere else",
